@@ -179,6 +179,30 @@ impl<K, V> HashMap<K, V> {
         let at = self.find(&k);
         Entry { map: self, key: k, at }
     }
+    pub fn with_capacity(_n: usize) -> Self {
+        Self::default()
+    }
+    pub fn remove_entry<Q: ?Sized + Eq>(&mut self, k: &Q) -> Option<(K, V)>
+    where
+        K: Borrow<Q>,
+    {
+        match self.find(k) {
+            Some(i) => {
+                self.used[i] = false;
+                Some(unsafe { (self.keys[i].assume_init_read(), self.vals[i].assume_init_read()) })
+            }
+            None => None,
+        }
+    }
+    pub fn get_key_value<Q: ?Sized + Eq>(&self, k: &Q) -> Option<(&K, &V)>
+    where
+        K: Borrow<Q>,
+    {
+        match self.find(k) {
+            Some(i) => Some((self.key(i), self.val(i))),
+            None => None,
+        }
+    }
     pub fn retain<F: FnMut(&K, &mut V) -> bool>(&mut self, mut f: F) {
         let mut i = 0;
         while i < CAP {
@@ -221,6 +245,30 @@ impl<K, V> HashMap<K, V> {
     }
     pub fn iter(&self) -> impl Iterator<Item = (&K, &V)> {
         self.entries().into_iter().flatten()
+    }
+}
+
+impl<'a, K, V> IntoIterator for &'a HashMap<K, V> {
+    type Item = (&'a K, &'a V);
+    type IntoIter = std::iter::Flatten<std::array::IntoIter<Option<(&'a K, &'a V)>, CAP>>;
+    fn into_iter(self) -> Self::IntoIter {
+        self.entries().into_iter().flatten()
+    }
+}
+impl<K, V> IntoIterator for HashMap<K, V> {
+    type Item = (K, V);
+    type IntoIter = std::iter::Flatten<std::array::IntoIter<Option<(K, V)>, CAP>>;
+    fn into_iter(self) -> Self::IntoIter {
+        let e0 = if self.used[0] { Some(unsafe { (self.keys[0].assume_init_read(), self.vals[0].assume_init_read()) }) } else { None };
+        let e1 = if self.used[1] { Some(unsafe { (self.keys[1].assume_init_read(), self.vals[1].assume_init_read()) }) } else { None };
+        [e0, e1].into_iter().flatten()
+    }
+}
+impl<K: Eq, V> FromIterator<(K, V)> for HashMap<K, V> {
+    fn from_iter<I: IntoIterator<Item = (K, V)>>(it: I) -> Self {
+        let mut m = Self::default();
+        m.extend(it);
+        m
     }
 }
 
